@@ -283,6 +283,51 @@ theorem scalar_wrappers_source_pinned :
 
 example : Gen.Ed25519Ge.scalar_Inv_src.length = 7 := rfl
 
+/-- MarshalTo / UnmarshalFrom of point.go and scalar.go forward to group/internal/marshalling, whose four functions write
+`MarshalBinary()` to the writer, resp. `io.ReadFull` `MarshalSize()` bytes and hand them to `UnmarshalBinary` (a
+`cipher.Stream` reader means `Pick`): the text the models `Api.marshalTo`, `Api.unmarshalFrom` and `Schnorr.sign` / `challenge`
+(which treat MarshalTo as "append the encoding") were written against -/
+theorem io_wrappers_source_pinned :
+    (Gen.Ed25519Ge.point_MarshalTo_src =
+    ["func(w io.Writer) (int, error)",
+    "return marshalling.PointMarshalTo(P, w)"])
+    ∧ (Gen.Ed25519Ge.point_UnmarshalFrom_src =
+    ["func(r io.Reader) (int, error)",
+    "return marshalling.PointUnmarshalFrom(P, r)"])
+    ∧ (Gen.Ed25519Ge.scalar_MarshalTo_src =
+    ["func(w io.Writer) (int, error)",
+    "return marshalling.ScalarMarshalTo(s, w)"])
+    ∧ (Gen.Ed25519Ge.scalar_UnmarshalFrom_src =
+    ["func(r io.Reader) (int, error)",
+    "return marshalling.ScalarUnmarshalFrom(s, r)"])
+    ∧ (Gen.Ed25519Ge.marshalling_PointMarshalTo_src =
+    ["func(p kyber.Point, w io.Writer) (int, error)",
+    "buf, err := p.MarshalBinary()",
+    "if err != nil { return 0, err }",
+    "return w.Write(buf)"])
+    ∧ (Gen.Ed25519Ge.marshalling_PointUnmarshalFrom_src =
+    ["func(p kyber.Point, r io.Reader) (int, error)",
+    "if strm, ok := r.(cipher.Stream); ok { p.Pick(strm) return -1, nil }",
+    "buf := make([]byte, p.MarshalSize())",
+    "n, err := io.ReadFull(r, buf)",
+    "if err != nil { return n, err }",
+    "return n, p.UnmarshalBinary(buf)"])
+    ∧ (Gen.Ed25519Ge.marshalling_ScalarMarshalTo_src =
+    ["func(s kyber.Scalar, w io.Writer) (int, error)",
+    "buf, err := s.MarshalBinary()",
+    "if err != nil { return 0, err }",
+    "return w.Write(buf)"])
+    ∧ (Gen.Ed25519Ge.marshalling_ScalarUnmarshalFrom_src =
+    ["func(s kyber.Scalar, r io.Reader) (int, error)",
+    "if strm, ok := r.(cipher.Stream); ok { s.Pick(strm) return -1, nil }",
+    "buf := make([]byte, s.MarshalSize())",
+    "n, err := io.ReadFull(r, buf)",
+    "if err != nil { return n, err }",
+    "return n, s.UnmarshalBinary(buf)"]) := by
+  refine ⟨?_, ?_, ?_, ?_, ?_, ?_, ?_, ?_⟩ <;> rfl
+
+example : Gen.Ed25519Ge.marshalling_PointUnmarshalFrom_src.length = 6 := rfl
+
 /-- const.go: `prime` is 2^255 − 19 and `primeOrder` is ℓ; `bi` has its eight entries -/
 theorem const_pins :
     Gen.Ed25519Ge.c_prime = 2 ^ 255 - 19 ∧ Gen.Ed25519Ge.c_primeOrder = Dos.Ed25519.ell ∧ Gen.Ed25519Ge.c_bi.length = 8 := by
